@@ -142,6 +142,77 @@ proof fn lemma_n_sel_none(n: int)
     if n > 0 { lemma_n_sel_none(n - 1); }
 }
 
+// ---------------- integer SIMD path: kernels by their contracts (proved in unit A-simd), integer views of the column ----
+pub open spec fn ssum(s: Seq<i64>) -> int decreases s.len() {
+    if s.len() == 0 { 0 } else { ssum(s.drop_last()) + s.last() as int }
+}
+pub open spec fn is_min(s: Seq<i64>, m: i64) -> bool {
+    (exists|k: int| 0 <= k < s.len() && s[k] == m) && forall|k: int| 0 <= k < s.len() ==> m <= s[k]
+}
+pub open spec fn is_max(s: Seq<i64>, m: i64) -> bool {
+    (exists|k: int| 0 <= k < s.len() && s[k] == m) && forall|k: int| 0 <= k < s.len() ==> m >= s[k]
+}
+pub open spec fn min_so_far(s: Seq<i64>, n: int, m: i64) -> bool {
+    (forall|k: int| 0 <= k < n ==> m <= s[k]) && (if n == 0 { m == i64::MAX } else { exists|k: int| 0 <= k < n && s[k] == m })
+}
+pub open spec fn max_so_far(s: Seq<i64>, n: int, m: i64) -> bool {
+    (forall|k: int| 0 <= k < n ==> m >= s[k]) && (if n == 0 { m == i64::MIN } else { exists|k: int| 0 <= k < n && s[k] == m })
+}
+#[verifier::external_body]
+fn simd_sum_i64(column: &[i64]) -> (r: i128) ensures r as int == ssum(column@) { unimplemented!() }
+#[verifier::external_body]
+fn simd_min_i64(column: &[i64]) -> (r: Option<i64>) ensures r is None <==> column@.len() == 0, r is Some ==> is_min(column@, r.unwrap()) { unimplemented!() }
+#[verifier::external_body]
+fn simd_max_i64(column: &[i64]) -> (r: Option<i64>) ensures r is None <==> column@.len() == 0, r is Some ==> is_max(column@, r.unwrap()) { unimplemented!() }
+#[verifier::external_body]
+fn i64_min(a: i64, b: i64) -> (r: i64) ensures r == (if a <= b { a } else { b }) { a.min(b) }
+#[verifier::external_body]
+fn i64_max(a: i64, b: i64) -> (r: i64) ensures r == (if a >= b { a } else { b }) { a.max(b) }
+
+pub open spec fn is_intval(v: SqlValue) -> bool { v is Integer || v is Bigint || v is Smallint }
+pub open spec fn ival(v: SqlValue) -> i64 {
+    match v { SqlValue::Integer(x) => x, SqlValue::Bigint(x) => x, SqlValue::Smallint(x) => x as i64, _ => 0 }
+}
+/// the integer values of the live cells of the first n rows, in row order
+pub open spec fn ivals(rows: Seq<Row>, c: usize, bm: Option<&[bool]>, n: int) -> Seq<i64> decreases n {
+    if n <= 0 { Seq::empty() } else if live(rows, c, bm, n - 1) { ivals(rows, c, bm, n - 1).push(ival(cell(rows, c, n - 1).unwrap())) } else { ivals(rows, c, bm, n - 1) }
+}
+pub open spec fn all_int(rows: Seq<Row>, c: usize, bm: Option<&[bool]>, n: int) -> bool {
+    forall|i: int| 0 <= i < n && live(rows, c, bm, i) ==> is_intval(#[trigger] cell(rows, c, i).unwrap())
+}
+/// the first live value of the column (decides the result type of MIN / MAX)
+pub open spec fn first_live(rows: Seq<Row>, c: usize, bm: Option<&[bool]>, n: int) -> Option<SqlValue> decreases n {
+    if n <= 0 { None } else { match first_live(rows, c, bm, n - 1) { Some(v) => Some(v), None => if live(rows, c, bm, n - 1) { Some(cell(rows, c, n - 1).unwrap()) } else { None } } }
+}
+pub open spec fn type_tag(o: Option<SqlValue>) -> Option<SqlValue> {
+    match o { None => None, Some(SqlValue::Integer(_)) => Some(SqlValue::Integer(0)), Some(SqlValue::Smallint(_)) => Some(SqlValue::Smallint(0)), Some(_) => Some(SqlValue::Bigint(0)) }
+}
+pub open spec fn typed(o: Option<SqlValue>, m: i64) -> SqlValue {
+    match o { Some(SqlValue::Integer(_)) => SqlValue::Integer(m), Some(SqlValue::Smallint(_)) => SqlValue::Smallint(m as i16), _ => SqlValue::Bigint(m) }
+}
+proof fn lemma_ivals_len(rows: Seq<Row>, c: usize, bm: Option<&[bool]>, n: int)
+    ensures ivals(rows, c, bm, n).len() == n_live(rows, c, bm, n), 0 <= n_live(rows, c, bm, n) <= (if n <= 0 { 0 } else { n }),
+            (first_live(rows, c, bm, n) is None) == (n_live(rows, c, bm, n) == 0)
+    decreases n
+{
+    if n > 0 { lemma_ivals_len(rows, c, bm, n - 1); }
+}
+proof fn ssum_append(a: Seq<i64>, b: Seq<i64>)
+    ensures ssum(a + b) == ssum(a) + ssum(b)
+    decreases b.len()
+{
+    if b.len() == 0 { assert(a + b =~= a); } else {
+        assert((a + b).drop_last() =~= a + b.drop_last());
+        ssum_append(a, b.drop_last());
+    }
+}
+proof fn ssum_bound(s: Seq<i64>)
+    ensures -0x8000_0000_0000_0000 * s.len() <= ssum(s) <= 0x7fff_ffff_ffff_ffff * s.len()
+    decreases s.len()
+{
+    if s.len() > 0 { ssum_bound(s.drop_last()); }
+}
+
 // ---------------- scan.rs: the real scan and iterator ----------------------------------------------------------
 //@@ ColumnarScan
 
@@ -167,7 +238,10 @@ impl<'a> ColumnIterator<'a> {
 
 //@@ compute_avg
 
-// (min/max items are spliced below)
+//@@ AggregateOp
+
+//@@ simd_aggregate_i64
+
 
 fn canary_sum(scan: &ColumnarScan, c: usize, bm: Option<&[bool]>)
     requires bm_ok(scan.rows@, bm), scan.rows@.len() < i64::MAX
